@@ -204,6 +204,10 @@ type env struct {
 	gates   map[int]chan struct{}
 	visits  []int
 	applied []int
+	// library goroutines that belong to the environment's own background use of the library (e.g. another Join that is
+	// still alive, join_test.go): not counted by the census
+	baseline int
+	teardown []func()
 }
 
 func (e *env) gate(x int) {
@@ -515,7 +519,7 @@ func runScript(t *testing.T, line string) (res string) {
 				r = "ok"
 			case 'z':
 				synctest.Wait()
-				r = strconv.Itoa(census())
+				r = strconv.Itoa(census() - e.baseline)
 			case 'v':
 				e.mu.Lock()
 				s := make([]string, len(e.visits))
@@ -547,6 +551,9 @@ func runScript(t *testing.T, line string) (res string) {
 		// teardown: everything must be able to exit, else synctest reports a deadlock (= a leak)
 		cancel()
 		e.releaseAll()
+		for _, f := range e.teardown {
+			f()
+		}
 		if closesInOnCancel[c.stage] {
 			for j := range closedIn {
 				closedIn[j] = true
